@@ -33,7 +33,7 @@ BASE = dict(
     variants={}, faults={}, p_fault=0.0, reject=0.0, tight=0.35,
     treacherous=0.5, shapes=0.05, str_dtype=0.3, measures=SET_JOINS,
     threads=0.2, process=0.5, extras=0.5, outs=0.5, big=0.1,
-    wrong_mode_filters=0.0)
+    wrong_mode_filters=0.0, siblings=0.08)
 
 
 def profile(prop):
@@ -44,11 +44,11 @@ def profile(prop):
     elif prop == 'C02':
         p.update(tight=0.3, outs=0.8, p_missing=0.15, rows=(0, 12))
     elif prop == 'C03':
-        p.update(measures=['EDIT_DISTANCE'], tight=0.0)
+        p.update(measures=['EDIT_DISTANCE'], tight=0.0, siblings=0.2)
     elif prop == 'C04':
         p.update(ops={'filter_tables': 0.45, 'filter_candset': 0.25,
-                      'filter_pair': 0.3}, tight=0.5, treacherous=0.6,
-                 hist=(1, 3), big=0.2)
+                      'filter_pair': 0.3}, tight=0.6, treacherous=0.7,
+                 hist=(1, 3), big=0.2, siblings=0.3)
     elif prop == 'C05':
         p.update(ops={'apply_matcher': 1.0}, hist=(1, 2), p_missing=0.12)
     elif prop == 'C06':
@@ -91,7 +91,7 @@ def profile(prop):
                  faults={'worker_crash': 0.3, 'tok_raise': 0.5,
                          'sim_raise': 0.2}, p_fault=0.2, rows=(0, 8),
                  tight=0.1, wrong_mode_filters=0.3, chain_candsets=0.5,
-                 threads=0.35)
+                 threads=0.35, siblings=0.25)
     elif prop == 'C15':
         p.update(ops={'join': 0.4, 'filter_tables': 0.2, 'filter_candset': 0.1,
                       'apply_matcher': 0.1, 'filter_pair': 0.05,
@@ -141,11 +141,12 @@ def _double_products(measure, t, n):
     """The products a size / prefix / overlap bound may form in double
     precision for threshold t and size n (plain floating-point facts)."""
     if measure == 'JACCARD':
-        return [t * n, n / t, (t / (1 + t)) * n]
+        return [t * n, n / t, (t / (1 + t)) * n, n - (1 - t) * n]
     if measure == 'COSINE':
-        return [t * t * n, n / (t * t)]
+        return [t * t * n, n / (t * t), n - (1 - t * t) * n]
     if measure == 'DICE':
-        return [(t / (2 - t)) * n, ((2 - t) / t) * n, (t / 2) * n]
+        return [(t / (2 - t)) * n, ((2 - t) / t) * n, (t / 2) * n,
+                n - (1 - t / (2 - t)) * n]
     return [t * n]
 
 
@@ -167,7 +168,7 @@ def treacherous_pair(rng, measure, max_n):
     exact arithmetic, so the double product may land on either side of m.
     With probability 0.6 only pairs whose double product really is off the
     integer are accepted."""
-    want_anomaly = rng.random() < 0.6
+    want_anomaly = rng.random() < 0.5
     fallback = None
     for _ in range(150):
         t = decimal_threshold(rng)
@@ -573,11 +574,14 @@ def tight_scenario(g, lmeta, rmeta, measure, threshold):
             join_tokens(rng, f, [' ']))
     if rng.random() < 0.5:
         lvals, rvals = rvals, lvals
-    add_rows(g, lmeta, lvals, 'v')
+    lk = add_rows(g, lmeta, lvals, 'v')
     if rmeta['name'] != lmeta['name']:
-        add_rows(g, rmeta, rvals, 'v')
+        rk = add_rows(g, rmeta, rvals, 'v')
     else:
-        add_rows(g, lmeta, rvals, 'v')
+        rk = add_rows(g, lmeta, rvals, 'v')
+    # the boundary pair itself (first value on each side)
+    g.last_tight = {'lkey': lk[0], 'rkey': rk[0], 'ls': lvals[0],
+                    'rs': rvals[0]}
     return t
 
 
@@ -885,6 +889,22 @@ def attrs_for_tok(g, tokname, l, r):
     return l['v'], r['v']
 
 
+def maybe_tight_filter(g, fspec, l, r):
+    """Plant a boundary pair for this (fresh) filter.  Returns the planted
+    pair or None."""
+    rng = g.rng
+    m = fspec.get('measure', 'OVERLAP').upper()
+    if fspec['kind'] != 'OverlapFilter' and m in ('JACCARD', 'COSINE', 'DICE',
+                                                  'OVERLAP') and \
+            g.case['tokenizers'][fspec['tokenizer']]['kind'] != 'qgram' and \
+            rng.random() < g.prof['tight'] and not fspec.get('_used'):
+        g.last_tight = None
+        t = tight_scenario(g, l, r, m, fspec['threshold'])
+        fspec['threshold'] = int(t) if m == 'OVERLAP' else t
+        return g.last_tight
+    return None
+
+
 def gen_filter_tables(g, kind=None):
     rng = g.rng
     fname, fspec = get_filter(g, kind)
@@ -893,13 +913,7 @@ def gen_filter_tables(g, kind=None):
     op = {'op': 'filter_tables', 'filter': fname, 'l': l['name'],
           'r': r['name'], 'l_key': l['key'], 'r_key': r['key'],
           'l_attr': la, 'r_attr': ra}
-    m = fspec.get('measure', 'OVERLAP').upper()
-    if fspec['kind'] != 'OverlapFilter' and m in ('JACCARD', 'COSINE', 'DICE',
-                                                  'OVERLAP') and \
-            g.case['tokenizers'][fspec['tokenizer']]['kind'] != 'qgram' and \
-            rng.random() < g.prof['tight'] and not fspec.get('_used'):
-        t = tight_scenario(g, l, r, m, fspec['threshold'])
-        fspec['threshold'] = int(t) if m == 'OVERLAP' else t
+    maybe_tight_filter(g, fspec, l, r)
     fspec['_used'] = True
     lo, ro = out_attrs(g, l, la), out_attrs(g, r, ra)
     if lo is not None or rng.random() < 0.5:
@@ -974,7 +988,23 @@ def gen_filter_candset(g, kind=None):
         l, r = pick_tables(g)
         c_l, c_r = rng.choice([('l_' + l['key'], 'r_' + r['key']),
                                ('lid', 'rid')])
+        planted = maybe_tight_filter(g, fspec, l, r)
         name, n = gen_candset_spec(g, l, r, c_l, c_r)
+        if planted:
+            cs = g.case['candsets'][name]
+            pr = [planted['lkey'], planted['rkey']]
+            if pr not in cs['pairs']:
+                if cs['pairs']:
+                    cs['pairs'][rng.randrange(len(cs['pairs']))] = pr
+                else:
+                    cs['pairs'].append(pr)
+                    cs['ids'].append(0)
+                    cs['index'].append(0 if not cs['index'] or
+                                       isinstance(cs['index'][0], int)
+                                       else 'c0')
+                    for k2 in (cs.get('extra') or {}):
+                        cs['extra'][k2].append(None)
+                    n = len(cs['pairs'])
         op['candset'] = name
         op['c_l'], op['c_r'] = c_l, c_r
     la, ra = attrs_for_tok(g, fspec['tokenizer'], l, r)
@@ -991,11 +1021,14 @@ def gen_filter_pair(g, kind=None):
     l, r = pick_tables(g)
     la, ra = attrs_for_tok(g, fspec['tokenizer'], l, r)
     lspec, rspec = g.case['tables'][l['name']], g.case['tables'][r['name']]
+    planted = maybe_tight_filter(g, fspec, l, r)
     lv = [row[lspec['columns'].index(la)] for row in lspec['rows']] or ['']
     rv = [row[rspec['columns'].index(ra)] for row in rspec['rows']] or ['']
     fspec['_used'] = True
     op = {'op': 'filter_pair', 'filter': fname, 'ls': rng.choice(lv),
           'rs': rng.choice(rv), 'l': l['name'], 'r': r['name']}
+    if planted:
+        op['ls'], op['rs'] = planted['ls'], planted['rs']
     if rng.random() < g.prof['twin']:
         op['twin'] = True
     return op
@@ -1128,6 +1161,87 @@ def gen_convert(g):
             'return_col': rng.random() < 0.5}
 
 
+def gen_sibling(g, op):
+    """A near-duplicate of an earlier call: same entry point and arguments
+    with exactly one dimension changed (tokenizer of the same family, q,
+    threshold, measure).  Two such calls in one process are what an
+    incompletely keyed cache or a stale per-process memo needs."""
+    import copy
+    rng = g.rng
+    kind = op['op']
+    if kind not in ('join', 'filter_tables', 'filter_pair', 'filter_candset'):
+        return None
+    sib = copy.deepcopy(op)
+    for k in ('variants', 'fault', 'twin'):
+        sib.pop(k, None)
+    if g.prof['twin'] and rng.random() < g.prof['twin']:
+        sib['twin'] = True
+
+    def other_tok(name):
+        spec = g.case['tokenizers'].get(name)
+        if not isinstance(spec, dict):
+            spec = {'kind': 'qgram', 'qval': 2, 'padding': True,
+                    'return_set': False}
+        if spec['kind'] == 'qgram':
+            q = rng.choice([x for x in (1, 2, 3, 4) if x != spec['qval']])
+            new = dict(spec, qval=q)
+        else:
+            cands = [(n, s) for n, s in g.toks
+                     if s['kind'] != 'qgram' and n != name and
+                     bool(s['return_set']) == bool(spec['return_set'])]
+            if cands:
+                return rng.choice(cands)[0]
+            new = dict(spec, kind=rng.choice(
+                [k for k in ('ws', 'alnum', 'delim') if k != spec['kind']]))
+            if new['kind'] == 'delim':
+                new['delims'] = [',', ' ']
+            else:
+                new.pop('delims', None)
+        nm = 'K%d' % len(g.toks)
+        g.case['tokenizers'][nm] = new
+        g.toks.append((nm, new))
+        return nm
+
+    if kind == 'join':
+        what = rng.choice(['tok', 'threshold', 'measure'])
+        if what == 'tok':
+            sib['tok'] = other_tok('DEFAULT' if str(op['tok']).startswith(
+                'DEFAULT') else op['tok'])
+        elif what == 'threshold':
+            sib['threshold'] = gen_threshold(rng, op['measure'], g.prof)
+            if op['measure'] == 'OVERLAP':
+                sib['threshold'] = int(sib['threshold'])
+        else:
+            if op['measure'] in ('JACCARD', 'COSINE', 'DICE'):
+                sib['measure'] = rng.choice(
+                    [m for m in ('JACCARD', 'COSINE', 'DICE')
+                     if m != op['measure']])
+            else:
+                sib['tok'] = other_tok('DEFAULT' if str(op['tok']).startswith(
+                    'DEFAULT') else op['tok'])
+        return sib
+    fs = dict(g.case['filters'][op['filter']])
+    fs.pop('_used', None)
+    what = rng.choice(['tok', 'tok', 'threshold'])
+    if what == 'tok':
+        fs['tokenizer'] = other_tok(fs['tokenizer'])
+    else:
+        m = str(fs.get('measure', 'OVERLAP')).upper()
+        if fs['kind'] == 'OverlapFilter' or m == 'OVERLAP':
+            fs['threshold'] = rng.choice([t for t in (1, 2, 3, 4)
+                                          if t != fs['threshold']])
+        elif m == 'EDIT_DISTANCE':
+            fs['threshold'] = rng.choice([t for t in (0, 1, 2, 3)
+                                          if t != fs['threshold']])
+        else:
+            fs['threshold'] = gen_threshold(rng, m, g.prof)
+    name = 'F%d' % len(g.filters)
+    g.case['filters'][name] = fs
+    g.filters.append((name, fs))
+    sib['filter'] = name
+    return sib
+
+
 def generate(prop, seed, run, overrides=None):
     rng = random.Random(mix(seed, PROP_NO[prop], run))
     prof = profile(prop)
@@ -1185,6 +1299,26 @@ def generate(prop, seed, run, overrides=None):
             rm = [m for m in g.tables if m['name'] == op['r']][0]
             g.results_candsets.append((idx, lm, rm, op.get('l_prefix', 'l_'),
                                        op.get('r_prefix', 'r_')))
+        if prof.get('siblings') and 'fault' not in op and \
+                rng.random() < prof['siblings']:
+            sib = gen_sibling(g, op)
+            if sib is not None:
+                if rng.random() < 0.5:
+                    case['history'].append(sib)
+                else:
+                    # sibling first: order matters for a stale memo
+                    case['history'].insert(idx, sib)
+                    for o2 in case['history'][idx + 1:]:
+                        for o3 in (o2, o2.get('base') or {}):
+                            cs = o3.get('candset')
+                            if isinstance(cs, str) and \
+                                    cs.startswith('result_of:'):
+                                k = int(cs.split(':')[1])
+                                if k >= idx:
+                                    o3['candset'] = 'result_of:%d' % (k + 1)
+                    g.results_candsets = [
+                        ((ci + 1) if ci >= idx else ci, a, b, c, d)
+                        for (ci, a, b, c, d) in g.results_candsets]
     for _, fs in g.filters:
         fs.pop('_used', None)
     return case
